@@ -14,6 +14,8 @@ MERCHANTS = [
     dict(name='Cafe', cat='Food', sub='Coffee', tags=[], pays=[(D(2025, 1, 3), 4.5), (D(2025, 1, 3), 5.5), (D(2025, 1, 4), 6.0)]),
     dict(name='Moves', cat='Transfers', sub='', tags=['TRANSFER'], pays=[(D(2025, 1, 8), 500.0)]),
     dict(name='Flat', cat='Bills', sub='Power', tags=[], pays=[(D(2025, 1, 9), 50.0), (D(2025, 2, 9), 150.0)]),
+    # calendar corners: a leap day next to the 15th of the same month, and the last day of a year
+    dict(name='Leap', cat='Gym', sub='', tags=[], pays=[(D(2024, 2, 15), 30.0), (D(2024, 2, 29), 30.0), (D(2024, 12, 31), 31.0)]),
 ]
 ATOMS = ['true', 'category == "food"', 'category != "Bills"', 'subcategory == "grocery"', 'merchant == "netflix"', 'months >= 3',
          'months == 1', 'total > 100', 'total < 0', 'total >= 1200', 'cv < 0.3', 'cv > 0.5', 'cv >= 0', '0.75 > cv', '"recurring" in tags',
